@@ -179,7 +179,7 @@ def run_property(prop, tier, seed):
             if kind == "finding":
                 if not relevant:
                     continue
-                flabel = fid.split("__F_")[-1]
+                flabel = info.get("finding_label") or fid.split("__F_")[-1]
                 obid = "%s/%s#%s" % (uname, fid, flabel)
                 finding_obligations += 1
                 hit = [f for f in fl if f["label"] == flabel]
@@ -229,9 +229,21 @@ def run_property(prop, tier, seed):
     lines = []
     replay_dir = os.path.join(OUT, "replays")
     os.makedirs(replay_dir, exist_ok=True)
+    known_replayed = []
     for (obid, k, f) in known_hits:
-        w = K.replay_known(k) if k.get("replay") else None
-        lines.append("KNOWN-FINDING: property=%s %s -- %s" % (prop, obid, k.get("what", "")))
+        rep = None
+        if k.get("replay"):
+            # the listed witness is re-run against the real code on every run
+            try:
+                from . import witness
+                parts = k["replay"].split()
+                rr = witness.run_routine(parts[0], parts[1:])
+                rep = {"obligation": obid, "replay": k["replay"], "reproduced": bool(rr.get("found")), "observed": rr.get("clause", rr.get("error", ""))}
+            except Exception as e:
+                rep = {"obligation": obid, "replay": k["replay"], "reproduced": None, "error": repr(e)}
+            known_replayed.append(rep)
+        lines.append("KNOWN-FINDING: property=%s %s -- %s%s" % (prop, obid, k.get("what", ""),
+                     (" [witness replayed on the real code: %s]" % ("reproduced" if rep and rep.get("reproduced") else "NOT reproduced")) if rep else ""))
     seen = set()
     for (obid, f, r, info) in violations:
         if obid in seen:
@@ -278,6 +290,7 @@ def run_property(prop, tier, seed):
         "known_finding_obligations": {"total": finding_obligations, "failing_as_listed": len(known_hits),
                                       "now_holding": finding_now_holding},
         "known_findings_printed": [o for (o, _, _) in known_hits],
+        "known_findings_replayed": known_replayed,
         "bounded_stand_ins": bounded,
         "undecided": undecided,
         "repo_rev": repo_rev(),
